@@ -95,10 +95,10 @@ pub fn is_heavy(level: &str) -> bool {
 }
 
 /// Thorough tier: the full product over the `prod` levels of every site, plus every vector over
-/// the extended alphabets `sites_x` with at most `k` sites deviating from the all-empty baseline
-/// and from the full baseline (`full`, the same one the quick tier uses); vectors that hold a
-/// heavy level (see `is_heavy`) are limited to `k_heavy` deviating sites.
-pub fn configs_deep(sites_x: &[Site], prod: &[&[u8]], full: &[u8], k: usize, k_heavy: usize) -> Vec<Vec<u8>> {
+/// the extended alphabets `sites_x` with at most `k.0` sites deviating from the all-empty baseline
+/// or at most `k.1` sites deviating from the full baseline `full`; vectors that hold a heavy level
+/// (see `is_heavy`) are limited to `k_heavy` deviating sites.
+pub fn configs_deep(sites_x: &[Site], prod: &[&[u8]], full: &[u8], k: (usize, usize), k_heavy: usize) -> Vec<Vec<u8>> {
     let n = sites_x.len();
     let mut out: BTreeSet<Vec<u8>> = BTreeSet::new();
     let total: u64 = prod.iter().map(|p| p.len() as u64).product();
@@ -112,7 +112,7 @@ pub fn configs_deep(sites_x: &[Site], prod: &[&[u8]], full: &[u8], k: usize, k_h
         out.insert(v);
     }
     let empty: Vec<u8> = vec![0; n];
-    for base in [&empty[..], full] {
+    for (base, k) in [(&empty[..], k.0), (full, k.1)] {
         fn rec(sites: &[Site], base: &[u8], heavy_ok: bool, cur: &mut Vec<u8>, from: usize, left: usize, out: &mut BTreeSet<Vec<u8>>) {
             out.insert(cur.clone());
             if left == 0 {
@@ -515,7 +515,7 @@ pub fn union_box(groups: &[WmoGroupInfo]) -> BoundingBox {
 
 /// Ladder axes of the thorough tier: one section of a root is replaced by exactly `n` records
 /// (the first n of the 300-record level), or by one record whose string has exactly `n` bytes.
-pub const ROOT_LADDERS: [&str; 15] = [
+pub const ROOT_LADDERS: [&str; 18] = [
     "textures",
     "materials",
     "groups",
@@ -531,7 +531,14 @@ pub const ROOT_LADDERS: [&str; 15] = [
     "group_name_len",
     "set_name_len",
     "skybox_len",
+    // two-dimensional ladders, n = a + 41 * b with a, b in 0..=40
+    "textures*materials",
+    "portals*vertices",
+    "visible_lists*len",
 ];
+pub fn ladder_is_2d(axis: &str) -> bool {
+    axis.contains('*')
+}
 /// smallest n of a ladder axis (no empty texture / skybox string, see the assumptions)
 pub fn root_ladder_min(axis: &str) -> usize {
     match axis {
@@ -547,18 +554,23 @@ pub fn build_root(cfg: &[u8], version: WmoVersion) -> WmoRoot {
 
 pub fn build_root_with(cfg: &[u8], version: WmoVersion, ladder: Option<(&str, usize)>) -> WmoRoot {
     let (axis, n) = ladder.unwrap_or(("", 0));
-    let first = |mut v: Vec<String>| {
+    let (n2a, n2b) = (n % 41, n / 41);
+    let first = |mut v: Vec<String>, n: usize| {
         v.truncate(n);
         v
     };
     let textures = match axis {
-        "textures" => first(root_textures(6)),
+        "textures" => first(root_textures(6), n),
+        "textures*materials" => first(root_textures(6), n2a),
         "texture_name_len" => vec![rep('x', n)],
         _ => root_textures(cfg[0]),
     };
-    let mut materials = root_materials(if axis == "materials" { 4 } else { cfg[1] }, &textures);
+    let mut materials = root_materials(if axis == "materials" || axis == "textures*materials" { 4 } else { cfg[1] }, &textures);
     if axis == "materials" {
         materials.truncate(n);
+    }
+    if axis == "textures*materials" {
+        materials.truncate(n2b);
     }
     let mut groups = root_groups(if axis == "groups" { 8 } else { cfg[2] });
     match axis {
@@ -576,6 +588,13 @@ pub fn build_root_with(cfg: &[u8], version: WmoVersion, ladder: Option<(&str, us
             portals = root_portals(3);
             portals[0].vertices.truncate(n);
         }
+        "portals*vertices" => {
+            portals = root_portals(4);
+            portals.truncate(n2a);
+            for (i, p) in portals.iter_mut().enumerate() {
+                p.vertices = (0..n2b).map(|k| v3((i + k) as f32 * 0.5, i as f32, -(k as f32))).collect();
+            }
+        }
         _ => {}
     }
     let mut portal_references = root_portal_refs(if axis == "portal_refs" { 3 } else { cfg[4] });
@@ -588,6 +607,9 @@ pub fn build_root_with(cfg: &[u8], version: WmoVersion, ladder: Option<(&str, us
         "visible_list_len" => {
             visible_block_lists = root_visible(3);
             visible_block_lists[0].truncate(n);
+        }
+        "visible_lists*len" => {
+            visible_block_lists = (0..n2a as u16).map(|i| (0..n2b as u16).map(|k| i * 41 + k).collect()).collect();
         }
         _ => {}
     }
@@ -762,7 +784,7 @@ pub fn build_group_with(cfg: &[u8], ladder: Option<(&str, usize)>) -> WmoGroup {
         first_face: [0u16, 4, 0xFFFE][i],
         num_faces: [0u16, 4, 9][i],
     };
-    let axis = |i: usize| [v3(1.0, 0.0, 0.0), v3(0.0, 1.0, 0.0), v3(0.0, 0.0, 1.0), v3(-1.0, 0.0, 0.0), v3(0.0, -1.0, 0.0), v3(0.0, 0.0, -1.0)][i % 6];
+    let axn = |i: usize| [v3(1.0, 0.0, 0.0), v3(0.0, 1.0, 0.0), v3(0.0, 0.0, 1.0), v3(-1.0, 0.0, 0.0), v3(0.0, -1.0, 0.0), v3(0.0, 0.0, -1.0)][i % 6];
     let mut bsp_nodes = match cfg[5] {
         0 => None,
         1 => Some(vec![mkn(1)]),
@@ -771,7 +793,7 @@ pub fn build_group_with(cfg: &[u8], ladder: Option<(&str, usize)>) -> WmoGroup {
         3 => Some(
             (0..12usize)
                 .map(|i| WmoBspNode {
-                    plane: WmoPlane { normal: axis(i), distance: i as f32 - 5.5 },
+                    plane: WmoPlane { normal: axn(i), distance: i as f32 - 5.5 },
                     children: if i % 2 == 0 { [(i + 1) as i16, (i + 2) as i16] } else { [-1, -1] },
                     first_face: (i * 3) as u16,
                     num_faces: if i % 2 == 0 { 0 } else { i as u16 },
@@ -781,7 +803,7 @@ pub fn build_group_with(cfg: &[u8], ladder: Option<(&str, usize)>) -> WmoGroup {
         _ => Some(
             (0..300usize)
                 .map(|i| WmoBspNode {
-                    plane: WmoPlane { normal: axis(i), distance: (i as f32) * 0.75 - 100.0 },
+                    plane: WmoPlane { normal: axn(i), distance: (i as f32) * 0.75 - 100.0 },
                     children: if i < 149 { [(2 * i + 1) as i16, (2 * i + 2) as i16] } else { [-1, -1] },
                     first_face: (i * 5) as u16,
                     num_faces: if i < 149 { 0 } else { 5 },
